@@ -94,6 +94,11 @@ fn run_job(job: Job, miri: bool) -> (Job, Outcome, usize) {
                     if running > 1 || cpu > last_cpu + 1 || ev != last_ev {
                         quiet = false;
                     }
+                    // a stall the harness itself is making (or has just ended) is not a deadlock
+                    let pu = pipe::PAUSE_UNTIL_MS.load(Ordering::SeqCst);
+                    if pu != 0 && pipe::now_ms() < pu + 1500 {
+                        quiet = false;
+                    }
                     last_cpu = cpu;
                     last_ev = ev;
                 }
@@ -498,13 +503,45 @@ fn main() {
                 handle(&ctx, idx, &mut rep, &mut acc, Job::Real(sc), d, class)
             } else {
                 let mut sc = gen_scenario_t(&mut rng, ctx.miri, long, ctx.tier_thorough);
+                // once per shard (C07): a stall of seconds instead of micro- or milliseconds - the consumer
+                // does nothing for a while, or one work call takes that long with everything queued behind it.
+                // Nothing may be lost or cut short because somebody is slow.
+                let long_stall = prop == "C07" && !ctx.miri && idx == 3;
+                if long_stall {
+                    pipe::LONG_STALL_MS.store(if ctx.tier_thorough { 12_000 } else { 6_000 }, Ordering::SeqCst);
+                    sc.sizes = Sizes::Const(2, 24);
+                    sc.err_at = None;
+                    sc.init_fail = InitFail::None;
+                    sc.ask_again = 0;
+                    if shard % 2 == 0 {
+                        sc.threads = 1 + (shard / 2 % 3) as u32;
+                        sc.queue = 1 + (shard / 6 % 3) as usize;
+                        sc.consumer = Consumer::PauseAfter(1 + (shard % 3) as usize);
+                        sc.delay = Delay::None;
+                    } else {
+                        sc.threads = 1 + (shard / 2 % 2) as u32;
+                        sc.queue = 1;
+                        sc.consumer = Consumer::Drain;
+                        sc.delay = Delay::StallOne;
+                        sc.delay_target = 1 + (shard % 3) as usize;
+                    }
+                    rep.count("scenarios_with_a_stall_of_seconds");
+                }
                 // index among the mock scenarios (every third scenario uses a real reader), so that
                 // the systematic cycling in shape_mock visits every residue
                 let mock_idx = idx - idx / 3;
-                shape_mock(&prop, &mut rng, mock_idx, &mut sc);
+                if !long_stall {
+                    shape_mock(&prop, &mut rng, mock_idx, &mut sc);
+                }
                 let class = sc.class();
                 let d = sc.describe();
-                handle(&ctx, idx, &mut rep, &mut acc, Job::Mock(sc), d, class)
+                let c = handle(&ctx, idx, &mut rep, &mut acc, Job::Mock(sc), d, class);
+                pipe::LONG_STALL_MS.store(0, Ordering::SeqCst);
+                if long_stall {
+                    // (a replay repeats a scenario until the schedule shows the violation again; not this one)
+                    repeat = repeat.min(2);
+                }
+                c
             };
             if only.is_some() {
                 // replay: the scenario is fixed, the OS schedule is not - repeat until it shows again
